@@ -210,3 +210,104 @@ func verifFreeze(n node) {
 		}
 	}
 }
+
+// VerifH_TreeHistoryAndRanges: the multi-version reads of the tree against the reference map.
+// `bulks` single-pair bulk inserts over two keys (symbolic key choice, values and explicit or
+// automatic timestamps) give each key up to `bulks` versions, on top of a concrete preload that
+// already split the tree; then, for a symbolic probe key:
+//  * history(key, offset, desc, limit) returns exactly the versions offset.. of the key in the
+//    requested order (at most limit), with the total number of versions; offset == count is
+//    "no more entries", larger offsets are refused;
+//  * getBetween(key, lo, hi) returns the newest version with lo <= ts <= hi together with its
+//    revision number in commit order, or not-found.
+func VerifH_TreeHistoryAndRanges() {
+	bulks := verifrt.Param("bulks")
+	desc := verifrt.Param("desc") == 1
+	t := verifNewTree(verifrt.Param("nodeSize"))
+	m := &verifModel{}
+	for i := 0; i < verifrt.Param("preload"); i++ {
+		k := byte(10 * (i + 1))
+		verifrt.Assume(t.bulkInsert([]*KVT{{K: []byte{k}, V: []byte{1}}}) == nil)
+		m.put(k, 1, m.ts+1)
+	}
+	for b := 0; b < bulks; b++ {
+		k := byte(10)
+		if verifrt.Bool("otherKey") {
+			k = 15 // not preloaded: lands between two preloaded keys
+		}
+		v := verifrt.Byte("v")
+		var ts uint64
+		if verifrt.Bool("explicitTs") {
+			ts = verifrt.U64("ts")
+			verifrt.Assume(ts > m.ts && ts <= m.ts+3)
+		}
+		verifrt.Assert(t.bulkInsert([]*KVT{{K: []byte{k}, V: []byte{v}, T: ts}}) == nil, "insert")
+		if ts == 0 {
+			ts = m.ts + 1
+		}
+		m.put(k, v, ts)
+	}
+	probe := byte(10)
+	if verifrt.Bool("probeOther") {
+		probe = 15
+	}
+	i := m.find(probe)
+	offset, limit := verifrt.U64("offset"), verifrt.Int("limit")
+	verifrt.Assume(limit >= 1 && limit <= bulks+2 && offset <= uint64(bulks)+3)
+	tvs, hc, err := t.root.history([]byte{probe}, offset, desc, limit)
+	lo, hi := verifrt.U64("lo"), verifrt.U64("hi")
+	verifrt.Assume(lo <= hi && hi >= 1 && hi <= m.ts+1)
+	bv, bts, bhc, berr := t.root.getBetween([]byte{probe}, lo, hi)
+	if i < 0 {
+		verifrt.Assert(err != nil && berr != nil, "absent key: no history, no version")
+		verifrt.Reach("absent")
+		return
+	}
+	vs := m.keys[i].versions
+	n := uint64(len(vs))
+	switch {
+	case offset == n:
+		verifrt.Assert(err == ErrNoMoreEntries, "offset at the end: no more entries")
+	case offset > n:
+		verifrt.Assert(err != nil, "offset beyond the history is refused")
+	default:
+		verifrt.Assert(err == nil && hc == n, "history served with the number of versions")
+		want := int(n - offset)
+		if want > limit {
+			want = limit
+		}
+		verifrt.Assert(len(tvs) == want, "page length")
+		for j := 0; j < len(tvs) && j < len(vs); j++ {
+			r := int(offset) + j // index in commit order
+			if desc {
+				r = len(vs) - 1 - int(offset) - j
+			}
+			for q := range vs {
+				if q == r {
+					verifrt.Assert(tvs[j].Ts == vs[q].ts && len(tvs[j].Value) == 1 && tvs[j].Value[0] == vs[q].val, "history entry is the version at that position")
+				}
+			}
+		}
+		verifrt.Reach("history served")
+	}
+	// newest version inside [lo, hi]
+	best := -1
+	for q := range vs {
+		if vs[q].ts >= lo && vs[q].ts <= hi {
+			best = q
+		}
+	}
+	if best < 0 {
+		verifrt.Assert(berr != nil, "no version in the range: not found")
+		verifrt.Reach("range empty")
+		return
+	}
+	verifrt.Assert(berr == nil, "a version in the range is found")
+	for q := range vs {
+		if q == best {
+			verifrt.Assert(bts == vs[q].ts && len(bv) == 1 && bv[0] == vs[q].val, "getBetween returns the newest version in the range")
+			verifrt.Assert(bhc == uint64(q+1), "with its revision number")
+		}
+	}
+	verifrt.Reach("range served")
+}
